@@ -305,6 +305,35 @@ def check(ctx):
         ctx.check(wit is None, "advance/all-due-calls-run", q + " | <after the call>",
                   "after running one call advance() can return without re-examining the head of `calls`: further calls reached by this "
                   "advance are left for a later one", witness=g.describe(wit))
+        # (e) once the clock has moved, advance() must examine `calls` (run loop / emptiness test) before it returns: an early
+        #     return that relies on some other activation to run what became due loses calls when that activation is gone
+        examines = set(g.ids(lambda n: n.kind == "test" and any(_self_attr(x, "calls") for x in ast.walk(n.ast))))
+        for t in tw:
+            wit = g.path([t], [g.exit], avoid=examines, strict=True, edge_ok=lambda a_, b_, l: l != "exc")
+            ctx.check(wit is None, "advance/time-change-reaches-run-loop", ctx.construct(q, g.node(t).ast),
+                      "advance() can move the clock and return without looking at `calls`: calls reached by this advance do not run "
+                      "during it (and never, if nobody else runs them)", witness=g.describe(wit))
+        # (f) a guard attribute set before the call-out and tested in advance() must be cleared on EVERY way out, the
+        #     exceptional one included (a raising call would otherwise leave every later advance() disabled)
+        tested = {src(n.ast) for n in g.nodes if n.kind == "test" and isinstance(n.ast, ast.Attribute) and isinstance(n.ast.value, ast.Name)
+                  and n.ast.value.id == "self"}
+        flags = 0
+        for n in g.ids(lambda n: n.kind == "stmt" and isinstance(n.ast, ast.Assign) and len(n.ast.targets) == 1
+                       and isinstance(n.ast.targets[0], ast.Attribute) and src(n.ast.targets[0]) in tested
+                       and isinstance(n.ast.value, ast.Constant) and bool(n.ast.value.value)):
+            name = src(g.node(n).ast.targets[0])
+            if not g.path([n], [out]):
+                continue
+            flags += 1
+            clears = g.ids(lambda m: m.kind == "stmt" and isinstance(m.ast, ast.Assign) and any(src(t_) == name for t_ in m.ast.targets)
+                           and isinstance(m.ast.value, ast.Constant) and not m.ast.value.value)
+            wit = g.path([n], [g.exit, g.raise_exit], avoid=clears, strict=True)
+            ctx.check(bool(clears) and wit is None, "advance/guard-reset-on-every-exit", ctx.construct(q, g.node(n).ast),
+                      f"{name} is set before the call-out and tested by advance(), but is not cleared when a scheduled call raises: the "
+                      "exception leaves it set and every later advance() skips the run loop - the remaining calls never run",
+                      witness=g.describe(wit))
+        if not flags:
+            ctx.ok("advance/guard-reset-on-every-exit", q + " | <no guard attribute around the call-out>")
         k = next(a_.kind for a_ in acc if a_.kind.startswith("pop_"))
         ctx.check(k == "pop_first", "advance/takes-head", ctx.construct(q, g.node(pop).ast), "the call taken is not the first of the ascending list")
 
@@ -371,4 +400,25 @@ MUTANTS += [
 ]
 SILENT += [
     Silent("accessor-resorts", TASK, "        return self.calls\n", "        self._sortCalls()\n        return self.calls\n"),
+]
+
+_ADV_GUARDED = ('        self.rightNow += amount\n        if self._advancing:\n            return\n        self._advancing = True\n        self._sortCalls()\n'
+                '        while self.calls and self.calls[0].getTime() <= self.seconds():\n            call = self.calls.pop(0)\n            call.called = 1\n'
+                '            call.func(*call.args, **call.kw)\n            self._sortCalls()\n        self._advancing = False\n')
+_ADV_FLAGGED = ('        self.rightNow += amount\n        self._advancing = True\n        try:\n            self._sortCalls()\n'
+                '            while self.calls and self.calls[0].getTime() <= self.seconds():\n                call = self.calls.pop(0)\n                call.called = 1\n'
+                '                call.func(*call.args, **call.kw)\n                self._sortCalls()\n        finally:\n            self._advancing = False\n')
+MUTANTS += [
+    # re-entrancy guard: a nested advance() only moves the clock and leaves the work to the outer loop; the flag is cleared by a plain
+    # assignment after the loop, so one raising call disables every later advance()
+    Mutant("reentrancy-guard-not-exception-safe", TASK, _ADV, _ADV_GUARDED, expect_rule="advance/guard-reset-on-every-exit",
+           more=[(TASK, "    rightNow = 0.0\n", "    rightNow = 0.0\n    _advancing = False\n")]),
+    Mutant("nested-advance-only-moves-clock", TASK, _ADV, _ADV_GUARDED, expect_rule="advance/time-change-reaches-run-loop",
+           more=[(TASK, "    rightNow = 0.0\n", "    rightNow = 0.0\n    _advancing = False\n")]),
+    Mutant("negative-advance-returns-early", TASK, "        self.rightNow += amount\n        self._sortCalls()\n",
+           "        self.rightNow += amount\n        if amount <= 0:\n            return\n        self._sortCalls()\n", expect_rule="advance/time-change-reaches-run-loop"),
+]
+SILENT += [
+    # an informational flag, set and cleared exception-safely, that never short-cuts the run loop
+    Silent("advancing-flag-informational", TASK, _ADV, _ADV_FLAGGED, more=[(TASK, "    rightNow = 0.0\n", "    rightNow = 0.0\n    _advancing = False\n")]),
 ]
